@@ -17,7 +17,7 @@ TREE = os.environ.get("MUT_TREE", "/repo")   # default: apply to /repo itself an
 def sh(cmd): return subprocess.run(cmd, shell=True, stdout=subprocess.PIPE, stderr=subprocess.STDOUT, text=True, errors="replace")
 assert sh("git -C %s status --porcelain --untracked-files=no" % TREE).stdout.strip() == "", "/repo has local modifications"
 for rel in ids:
-    area = rel.split("/")[0].rstrip("2")
+    area = rel.split("/")[0].rstrip("23")
     r = sh("git -C %s apply %s" % (TREE, os.path.join(S, rel, "patch.diff")))
     if r.returncode != 0:
         print("%-12s patch does not apply: %s" % (rel, r.stdout.strip()[:150])); sh("git -C %s checkout -- ." % TREE); results[rel] = dict(applies=False); continue
